@@ -82,4 +82,45 @@ def ramBlockPage (data : List Nat) (page : Nat) : List Nat :=
 /-- `_make_z80_ram_block(data)` for version 1 (end marker appended). -/
 def ramBlockV1 (data : List Nat) : List Nat := enc data ++ [0, 237, 237, 0]
 
+/-- Errors of the version 2/3 page reader: `SnapshotError` "Found ED ED 00", `IndexError`
+(truncated block header or `ED ED` token), `SnapshotError` "Page … is … bytes". -/
+inductive PageErr | zeroRun | truncated | badLength
+  deriving DecidableEq, Repr
+
+def pageCons (p : Int × List Nat) :
+    Except PageErr (List (Int × List Nat)) → Except PageErr (List (Int × List Nat))
+  | .ok r => .ok (p :: r)
+  | .error e => .error e
+
+/-- The `while i < len(data)` loop of `Z80._read` (version 2/3) on the bytes after the header:
+the `(bank, contents)` assignments `banks[bank] = …` in the order they are made. -/
+def readPages (data : List Nat) : Except PageErr (List (Int × List Nat)) :=
+  match data with
+  | [] => .ok []
+  | a :: b :: c :: rest =>
+    let length := a + 256 * b
+    let bank : Int := (c : Int) - 3
+    if length = 65535 then
+      let blk := rest.take 16384
+      if blk.length ≠ 16384 then .error .badLength
+      else pageCons (bank, blk) (readPages (rest.drop 16384))
+    else
+      match dec (rest.take length) with
+      | .error .zeroRun => .error .zeroRun
+      | .error .truncated => .error .truncated
+      | .ok blk =>
+        if blk.length ≠ 16384 then .error .badLength
+        else pageCons (bank, blk) (readPages (rest.drop length))
+  | _ => .error .truncated
+termination_by data.length
+decreasing_by all_goals (simp only [List.length_cons, List.length_drop]; omega)
+
+/-- `Z80.data()` for version 2/3: `for bank, data in enumerate(self.memory.banks, 3): if data: …`
+(`banks` from index `first`; `None` and empty banks are skipped). -/
+def writePages : List (Option (List Nat)) → Nat → List Nat
+  | [], _ => []
+  | none :: bs, page => writePages bs (page + 1)
+  | some d :: bs, page =>
+    if d = [] then writePages bs (page + 1) else ramBlockPage d page ++ writePages bs (page + 1)
+
 end Z80Rle
